@@ -18,13 +18,15 @@ Inductive mutation :=
 
 Inductive input :=
 | ISeal (key nonce : bytes) (now1 now2 : Z) (u : url) (m : mutation) (now' : Z)
-| IHandle (guard : bool) (ctx : fsctx) (mode meth : N) (read_only qbad : bool) (p : bytes).
+| IHandle (guard : bool) (ctx : fsctx) (mode meth : N) (read_only qbad : bool) (p : bytes)
+| IGrpc (guard : bool) (ctx : fsctx) (use_id : bool) (p org name : bytes).   (* a ChunkStoreService method with this repo_path / repo_id *)
   (* mode 0: URL.Path = p, identity sealer; 1: {Path = p} sealed by the real sealer and sent as a URL string;
      2: p is the escaped path of the request target, identity sealer *)
 
 Inductive obs :=
 | OSeal (spath pt : bytes) (r : ures)      (* sealed path, plaintext inside req, result of Unseal *)
-| OHandle (cleaned joined : bytes) (r : hres).
+| OHandle (cleaned joined : bytes) (r : hres)
+| OGrpc (cleaned joined : bytes) (err : bool) (touched : list bytes).
 
 Definition case := (input * obs)%type.
 
@@ -60,7 +62,20 @@ Definition std_ctx : fsctx :=
                   [47; 83; 66; 47; 114; 49; 47; 114; 50; 47; 114; 51; 47; 114; 52; 47; 114; 111; 111; 116; 120; 47; 48; 49; 50; 51; 52; 53; 54; 55; 56; 57; 97; 98; 99; 100; 101; 102; 103; 104; 105; 106; 107; 108; 109; 110; 111; 112; 113; 114; 115; 116; 117; 118];
                   [47; 83; 66; 47; 114; 49; 47; 114; 50; 47; 114; 51; 47; 120; 47; 48; 49; 50; 51; 52; 53; 54; 55; 56; 57; 97; 98; 99; 100; 101; 102; 103; 104; 105; 106; 107; 108; 109; 110; 111; 112; 113; 114; 115; 116; 117; 118];
                   [47; 83; 66; 47; 114; 49; 47; 114; 50; 47; 114; 51; 47; 114; 52; 47; 120; 47; 97; 97; 97; 97; 97; 97; 97; 97; 97; 97; 97; 97; 97; 97; 97; 97; 98; 98; 98; 98; 98; 98; 98; 98; 98; 98; 98; 98; 98; 98; 98; 98]];
-     fs_dirs := [[47; 83; 66; 47; 114; 49; 47; 114; 50; 47; 114; 51; 47; 114; 52; 47; 114; 111; 111; 116; 47; 111; 114; 103; 47; 101; 109; 112; 116; 121]] |}.
+     fs_dirs := [[47; 83; 66];
+                 [47; 83; 66; 47; 114; 49];
+                 [47; 83; 66; 47; 114; 49; 47; 114; 50];
+                 [47; 83; 66; 47; 114; 49; 47; 114; 50; 47; 114; 51];
+                 [47; 83; 66; 47; 114; 49; 47; 114; 50; 47; 114; 51; 47; 114; 52];
+                 [47; 83; 66; 47; 114; 49; 47; 114; 50; 47; 114; 51; 47; 114; 52; 47; 114; 111; 111; 116];
+                 [47; 83; 66; 47; 114; 49; 47; 114; 50; 47; 114; 51; 47; 114; 52; 47; 114; 111; 111; 116; 47; 111; 114; 103];
+                 [47; 83; 66; 47; 114; 49; 47; 114; 50; 47; 114; 51; 47; 114; 52; 47; 114; 111; 111; 116; 47; 111; 114; 103; 47; 114; 101; 112; 111];
+                 [47; 83; 66; 47; 114; 49; 47; 114; 50; 47; 114; 51; 47; 114; 52; 47; 114; 111; 111; 116; 47; 111; 114; 103; 47; 101; 109; 112; 116; 121];
+                 [47; 83; 66; 47; 114; 49; 47; 114; 50; 47; 114; 51; 47; 114; 52; 47; 114; 111; 111; 116; 47; 115; 111; 108; 111];
+                 [47; 83; 66; 47; 114; 49; 47; 114; 50; 47; 114; 51; 47; 114; 52; 47; 111; 117; 116];
+                 [47; 83; 66; 47; 114; 49; 47; 114; 50; 47; 114; 51; 47; 114; 52; 47; 114; 111; 111; 116; 120];
+                 [47; 83; 66; 47; 114; 49; 47; 114; 50; 47; 114; 51; 47; 120];
+                 [47; 83; 66; 47; 114; 49; 47; 114; 50; 47; 114; 51; 47; 114; 52; 47; 120]] |}.
 
 Definition zero_nonce : bytes := repeat 0 12.
 
@@ -87,6 +102,10 @@ Definition model_obs (i : input) : obs :=
              | None => {| h_status := 400; h_read := None; h_touched := [] |}
              | Some hp => handle guard ctx meth ro qbad hp
              end)
+  | IGrpc guard ctx use_id p org name =>
+    let rp := grpc_repo_path use_id p org name in
+    let r := grpc_handle guard ctx rp in
+    OGrpc (clean rp) (join2 (fs_root ctx) rp) (fst r) (snd r)
   end.
 
 Definition ures_eqb (a b : ures) : bool :=
@@ -114,6 +133,7 @@ Definition obs_eqb (a b : obs) : bool :=
   match a, b with
   | OSeal p1 t1 r1, OSeal p2 t2 r2 => beq_bytes p1 p2 && beq_bytes t1 t2 && ures_eqb r1 r2
   | OHandle c1 j1 r1, OHandle c2 j2 r2 => beq_bytes c1 c2 && beq_bytes j1 j2 && hres_eqb r1 r2
+  | OGrpc c1 j1 e1 t1, OGrpc c2 j2 e2 t2 => beq_bytes c1 c2 && beq_bytes j1 j2 && Bool.eqb e1 e2 && lbytes_eqb t1 t2
   | _, _ => false
   end.
 
@@ -143,6 +163,7 @@ Definition oracle (i : input) (o : obs) : bool :=
   | IHandle _ ctx _ _ _ _ _, OHandle _ _ r =>
     forallb (under_b (fs_root ctx)) (h_touched r)
     && match h_read r with Some f => under_b (fs_root ctx) f | None => true end
+  | IGrpc _ ctx _ _ _ _, OGrpc _ _ _ touched => forallb (under_b (fs_root ctx)) touched
   | _, _ => false
   end.
 
